@@ -96,6 +96,11 @@ def _one(emmet, vec, section, typ, syn, conc, tabs, bad, stats):
             expected[c] = ('builtin', tabs[eff][c])
         else:
             expected[c] = ('absent', None)
+    # the global configuration also holds sections for syntaxes and for the type that are not asked for: they are no layer of this call
+    for other in ('html', 'css', 'pug', 'stylesheet' if typ == 'markup' else 'markup'):
+        if other not in (typ, syn):
+            for mk in sorted(conc):
+                glob.setdefault(other, {}).setdefault(section, {})[conc[mk]] = _marker(section, 9, conc[mk], None)
     user_before = copy.deepcopy(user)
     glob_before = copy.deepcopy(glob)
     case = {'section': section, 'type': typ, 'syntax': syn, 'keys': conc, 'defs': vec['defs'], 'eff': vec['eff'],
